@@ -70,7 +70,7 @@ TDeals ==
   /\ UNCHANGED <<cf, badsec, me>> /\ Keep
 
 DealOf(b) == [from |-> b.from, c |-> 1, poly |-> b.poly, sid |-> b.sid, thr |-> b.thr, unk |-> b.unk, sec |-> b.sec,
-              sh |-> [j \in Holders |-> IF j = me THEN b.mine ELSE "G"]]
+              sh |-> [j \in Holders |-> IF j = me THEN b.mine ELSE "G"], auth |-> TRUE]
 Known(bs) == SelectSeq(bs, LAMBDA b : ~b.nil /\ b.from >= 0)
 MapSeq(f(_), sq) == [i \in DOMAIN sq |-> f(sq[i])]
 
@@ -93,7 +93,7 @@ TProcessResponses ==
 
 \* "good" = the revealed share matches the public polynomial the node stored for that dealer
 JustOfT(b) == [from |-> b.from, c |-> 1, sid |-> b.sid, unk |-> b.unk, js |-> KVFun(b.js),
-               poly |-> IF b.haspub THEN node[me].ap[b.from] ELSE 0]
+               poly |-> IF b.haspub THEN node[me].ap[b.from] ELSE 0, auth |-> TRUE]
 TProcessJustifications ==
   /\ Live /\ IsEvent("ProcessJustifications")
   /\ LET bs == MapSeq(JustOfT, Known(Trace[l].args.bundles))
